@@ -1,5 +1,5 @@
 """C07 — dual hashes: canonical storage discipline of the RLE side table (structural clauses)."""
-from ..rules import tail, fields, eqord, parser, panic, rle
+from ..rules import tail, fields, eqord, parser, panic, rle, normal
 
 EXPL = ("Decides: SA-TAIL: on every construction route the RLE block is terminator-filled from the encoder's final offset to the end and "
         "the normalised block hash is zero-filled from its stored length; every write into an RLE block anywhere in the crate is "
@@ -10,7 +10,8 @@ EXPL = ("Decides: SA-TAIL: on every construction route the RLE block is terminat
         "SA-FORMULA: encode(pos,len) = pos | ((len-1) << 6) and decode(v) = (v & 63, (v >> 6) + 1) are an "
         "inverse pair by shape, the encoder emits (len-4)/4 groups of 4 followed by one group of (len-4)%4+1 and returns the advanced "
         "offset, the compressor hands it (stored length - 1, repeat counter + 1); the parser route builds the dual from the raw parse via from_raw_form (who-may-call rule on the encoder, F1 fixed). "
-        "NOT decided: expand(compress(x)) == x and canonicity of the (position,length) arithmetic.")
+        "SA-SIBLING: the compressor's run detector (like the three others) counts a run from a `previous symbol` that starts outside the "
+        "alphabet, +1 per repeat against MAX_SEQUENCE_SIZE, with a counter that cannot wrap. NOT decided: expand(compress(x)) == x and canonicity of the (position,length) arithmetic.")
 
 
 def run(ctx):
@@ -26,6 +27,7 @@ def run(ctx):
         ctx.guard("C07", "sym", lambda: eqord.len_index_symmetry(ctx, prog, scope=r"hash_dual::", floor=8))
         ctx.guard("C07", "encoder", lambda: encoder_callers(ctx, prog))
         ctx.guard("C07", "rle-formulas", lambda: rle.encoding(ctx, prog))
+        ctx.guard("C07", "runs", lambda: normal.run_limit_agreement(ctx, prog))
     return ctx.finish(EXPL, ["raw inputs of the compressor are valid raw block hashes (length <= capacity)"])
 
 
